@@ -12,15 +12,11 @@ set_option linter.unusedSimpArgs false
 
 /-! ## 0. shape -/
 
-theorem powerEff_same (n : Node) (x : Sw) : Sw.Same (powerEff n x) x := by
-  have hb : Sw.Same (bootEff n x) x := by
-    unfold bootEff; repeat' split
-    all_goals first | exact .refl x | exact x.startUp_same
-  have hs : ∀ (m : Node) (y : Sw), Sw.Same (shutEff m y) y := by
-    intro m y
-    unfold shutEff powerOnEff; repeat' split
-    all_goals first | exact .refl y | exact y.shutDown_same | exact (y.shutDown.startUp_same).trans y.shutDown_same
-  exact (hs _ _).trans hb
+theorem powerEff_same (n : Node) (x : Sw) : Sw.Same (powerEff n x) x := (powerEff_rel n x).same
+
+/-- what `reset` with `shut_down_duration <= 0` does to an item: stopped / closed, then started again if the node boots at once -/
+theorem resetNowEff_rel (n : Node) (x : Sw) : Sw.PowerRel (powerOnEff n x.shutDown) x :=
+  (powerOnEff_rel n x.shutDown).trans x.shutDown_rel
 
 theorem Sw.Same.id {y x : Sw} (h : Sw.Same y x) : y.name = x.name ∧ y.isApp = x.isApp := ⟨h.name, h.isApp⟩
 
@@ -51,13 +47,13 @@ theorem swEff_name (n : Node) (op : Op) (x : Sw) : (swEff n op x).name = x.name 
   case shutdown =>
     split
     · split
-      · exact x.shutDown_same.id
+      · exact (offNowEff_rel n x).same.id
       · exact ⟨rfl, rfl⟩
     · exact ⟨rfl, rfl⟩
   case reset =>
     split
     · split
-      · exact x.shutDown_same.id
+      · exact (resetNowEff_rel n x).same.id
       · exact ⟨rfl, rfl⟩
     · exact ⟨rfl, rfl⟩
   case startup =>
@@ -129,14 +125,14 @@ theorem swEff_visible (n : Node) (op : Op) (x : Sw) :
     simp only [Bool.false_eq_true, if_false]
     split
     · split
-      · exact x.shutDown_same.visible
+      · exact (offNowEff_rel n x).same.visible
       · rfl
     · rfl
   case reset =>
     simp only [Bool.false_eq_true, if_false]
     split
     · split
-      · exact x.shutDown_same.visible
+      · exact (resetNowEff_rel n x).same.visible
       · rfl
     · rfl
   case startup =>
@@ -186,35 +182,10 @@ theorem C14_sw_scan_sets_visible (n : Node) (op : Op) (i : Nat) (x : Sw) (hx : n
 /-- the only thing the power phase can do to an item's actual health is UNUSED → GOOD (first start). -/
 theorem swMoment_actual (n : Node) (op : Op) (x : Sw) :
     (swMoment n op x).actual = x.actual ∨ (x.actual = .unused ∧ (swMoment n op x).actual = .good) := by
-  have hw : ∀ y : Sw, y.wake.actual = y.actual ∨ (y.actual = .unused ∧ y.wake.actual = .good) := by
-    intro y; unfold Sw.wake; split
-    · right; exact ⟨by assumption, rfl⟩
-    · left; rfl
-  have hsu : ∀ y : Sw, y.startUp.actual = y.actual ∨ (y.actual = .unused ∧ y.startUp.actual = .good) := by
-    intro y; unfold Sw.startUp; repeat' split
-    all_goals first | exact hw y | (left; rfl)
-  have hsd : ∀ y : Sw, y.shutDown.actual = y.actual := by
-    intro y; unfold Sw.shutDown; repeat' split
-    all_goals rfl
   by_cases hop : op = .tick
   case neg => cases op <;> first | exact absurd rfl hop | exact Or.inl rfl
   subst hop
-  simp only [swMoment]
-  unfold powerEff
-  have hb : (bootEff n x).actual = x.actual ∨ (x.actual = .unused ∧ (bootEff n x).actual = .good) := by
-    unfold bootEff; repeat' split
-    all_goals first | exact hsu x | (left; rfl)
-  have hs : ∀ (m : Node) (y : Sw), (shutEff m y).actual = y.actual ∨ (y.actual = .unused ∧ (shutEff m y).actual = .good) := by
-    intro m y; unfold shutEff powerOnEff; repeat' split
-    all_goals first | (left; rfl) | (left; exact hsd y) | skip
-    · have := hsu y.shutDown; rw [hsd y] at this; exact this
-  rcases hb with hb | ⟨hb1, hb2⟩
-  · rcases hs n.bootPhase (bootEff n x) with h | ⟨h1, h2⟩
-    · left; rw [h, hb]
-    · right; exact ⟨by rw [← hb]; exact h1, h2⟩
-  · rcases hs n.bootPhase (bootEff n x) with h | ⟨h1, _⟩
-    · right; exact ⟨hb1, by rw [h, hb2]⟩
-    · rw [hb2] at h1; cases h1
+  exact (powerEff_rel n x).actual
 
 
 /-! ## 2. visible file health changes only when a scan covering the file completes -/
@@ -438,6 +409,8 @@ def swActualCause (n : Node) (op : Op) (x : Sw) (new : SwH) : Prop :=
   | .sw _ nm .execute => n.power = .on ∧ nm = x.name ∧ x.actual = .unused ∧ new = .good
   | .appRun nm => n.power = .on ∧ nm = x.name ∧ x.actual = .unused ∧ new = .good
   | .startup => x.actual = .unused ∧ new = .good
+  /- a node that shuts down at once (`shut_down_duration <= 0`) while resetting is powered on again in the same call -/
+  | .shutdown | .reset => n.power = .on ∧ n.shutDur ≤ 0 ∧ x.actual = .unused ∧ new = .good
   /- a timestep: first start at the end of booting, timed completion of a fix, timed completion of an installation -/
   | .tick =>
     new = .good ∧
@@ -548,11 +521,25 @@ theorem C14_sw_actual_only_by_event (n : Node) (op : Op) (i : Nat) (x x' : Sw)
   cases op <;> simp only [swEff, swActualCause] at hne ⊢
   case tick => exact tickEff_actual n x hne
   case shutdown =>
-    exfalso; apply hne
-    (repeat' split) <;> first | rfl | exact x.shutDown_actual
+    split at hne
+    · rename_i hon
+      split at hne
+      · rename_i hd
+        rcases (offNowEff_rel n x).actual with e | ⟨u, g⟩
+        · exact absurd e hne
+        · rw [if_pos hon, if_pos hd]; exact ⟨hon, hd, u, g⟩
+      · exact absurd rfl hne
+    · exact absurd rfl hne
   case reset =>
-    exfalso; apply hne
-    (repeat' split) <;> first | rfl | exact x.shutDown_actual
+    split at hne
+    · rename_i hon
+      split at hne
+      · rename_i hd
+        rcases (resetNowEff_rel n x).actual with e | ⟨u, g⟩
+        · exact absurd e hne
+        · rw [if_pos hon, if_pos hd]; exact ⟨hon, hd, u, g⟩
+      · exact absurd rfl hne
+    · exact absurd rfl hne
   case startup =>
     split at hne
     · rcases (powerOnEff_rel n x).actual with e | ⟨u, g⟩
@@ -828,9 +815,9 @@ theorem swEff_fixing (n : Node) (op : Op) (x : Sw) (c : Int) (hf : x.Fixing c) (
       simp only [hoff, if_false]
       exact hp
   case shutdown =>
-    (repeat' split) <;> first | exact hf | exact .of_rel x.shutDown_rel hf
+    (repeat' split) <;> first | exact hf | exact .of_rel (offNowEff_rel n x) hf
   case reset =>
-    (repeat' split) <;> first | exact hf | exact .of_rel x.shutDown_rel hf
+    (repeat' split) <;> first | exact hf | exact .of_rel (resetNowEff_rel n x) hf
   case startup =>
     split
     · exact .of_rel (powerOnEff_rel n x) hf
@@ -1130,8 +1117,17 @@ theorem C14_folder_restore_request (n : Node) (F : String) (G : Folder) (hon : n
 
 theorem powerOn_scanCd (n : Node) : n.powerOn.scanCd = n.scanCd := by
   unfold Node.powerOn; (repeat' split) <;> rfl
+theorem offNow_scanCd (n : Node) : n.offNow.scanCd = n.scanCd := by
+  unfold Node.offNow
+  simp only []
+  split
+  · rw [powerOn_scanCd]; rfl
+  · rfl
 theorem powerOff_scanCd (n : Node) : n.powerOff.scanCd = n.scanCd := by
-  unfold Node.powerOff; (repeat' split) <;> rfl
+  unfold Node.powerOff
+  split
+  · exact offNow_scanCd n
+  · split <;> rfl
 theorem powerPhase_scanCd (n : Node) : n.powerPhase.scanCd = n.scanCd := by
   have hb : n.bootPhase.scanCd = n.scanCd := by unfold Node.bootPhase; (repeat' split) <;> rfl
   have hs : ∀ m : Node, m.shutPhase.scanCd = m.scanCd := by
@@ -1140,10 +1136,7 @@ theorem powerPhase_scanCd (n : Node) : n.powerPhase.scanCd = n.scanCd := by
     split
     · rfl
     · split
-      · simp only []
-        split
-        · rw [powerOn_scanCd]; rfl
-        · rfl
+      · exact offNow_scanCd m
       · rfl
   unfold Node.powerPhase; rw [hs, hb]
 
@@ -1481,8 +1474,8 @@ theorem swEff_fixOk (n : Node) (op : Op) (x : Sw) (hx : x.FixOk) : (swEff n op x
       · exact Sw.tick_fixOk _ hp
       · exact Sw.tick_fixOk _ hp
     · exact hp
-  case shutdown => (repeat' split) <;> first | exact hx | exact .of_rel x.shutDown_rel hx
-  case reset => (repeat' split) <;> first | exact hx | exact .of_rel x.shutDown_rel hx
+  case shutdown => (repeat' split) <;> first | exact hx | exact .of_rel (offNowEff_rel n x) hx
+  case reset => (repeat' split) <;> first | exact hx | exact .of_rel (resetNowEff_rel n x) hx
   case startup => split <;> first | exact hx | exact .of_rel (powerOnEff_rel n x) hx
   case sw isApp nm r =>
     unfold Sw.request
